@@ -17,11 +17,20 @@ KP = "wannierberri/grid/Kpoint.py"
 KT = "wannierberri/grid/Kpoint_tetra.py"
 GT = "wannierberri/grid/grid_tetra.py"
 GR = "wannierberri/grid/grid.py"
+PSY = "wannierberri/symmetry/point_symmetry.py"
 SOCF = "wannierberri/w90files/soc.py"
 SSOC = "wannierberri/system/system_soc.py"
 SYSR = "wannierberri/system/system_R.py"
 RVEC = "wannierberri/fourier/rvectors.py"
 MUTANTS = [
+    dict(prop="C09", name="__mul__: TR and-ed instead of xor", file=PSY, old="return PointSymmetry((self.R @ other.R) * (self.iInv * other.iInv), self.TR != other.TR)", new="return PointSymmetry((self.R @ other.R) * (self.iInv * other.iInv), self.TR or other.TR)"),
+    dict(prop="C09", name="__mul__: inversion sign dropped", file=PSY, old="return PointSymmetry((self.R @ other.R) * (self.iInv * other.iInv), self.TR != other.TR)", new="return PointSymmetry((self.R @ other.R) * (self.iInv), self.TR != other.TR)"),
+    dict(prop="C09", name="rotate: R instead of R.T", file=PSY, old="        return res @ self.R.T", new="        return res @ self.R"),
+    dict(prop="C09", name="transform_tensor: skips the first tensor axis for rank 3", file=PSY, old="        for i in range(dim - rank, dim):", new="        for i in range(dim - rank + (1 if rank == 3 else 0), dim):"),
+    dict(prop="C09", name="transform_tensor: TR transform applied for Inv", file=PSY, old="        if self.Inv:\n            transformInv(res)", new="        if self.Inv:\n            transformTR(res)"),
+    dict(prop="C09", name="Transform: conj applied before transpose only PRESERVING", file=PSY, old="        if self.conj:\n            res[:] = res[:].conj()\n        res[:] *= self.factor", new="        res[:] *= self.factor\n        if self.conj:\n            res[:] = res[:].conj()", expect="ok"),
+    dict(prop="C09", name="star: keeps duplicates at the end", file=PSY, old="        for i in range(len(st) - 1, 0, -1):", new="        for i in range(len(st) - 2, 0, -1):"),
+    dict(prop="C09", name="reduced vector: missing TR sign", file=PSY, old="return vec @ (basis @ self.R.T @ np.linalg.inv(basis)) * (self.iTR * self.iInv)", new="return vec @ (basis @ self.R.T @ np.linalg.inv(basis)) * (self.iInv)"),
     dict(prop="C25", name="C_ss: sign of sin in first row", file=SOCF, old="C_ss = np.array([[ct2 * ep2, -st2 * ep2],", new="C_ss = np.array([[ct2 * ep2, st2 * ep2],"),
     dict(prop="C25", name="pauli_rotated: einsum indices swapped", file=SOCF, old="'ai,abc,bj->ijc', C_ss.conj(), pauli_xyz, C_ss", new="'ia,abc,bj->ijc', C_ss.conj(), pauli_xyz, C_ss"),
     dict(prop="C25", name="double_spin: only spin-up block", file=SYSR, old="            for i in range(2):\n                XX_new[:, i::2, i::2] = XX", new="            for i in range(1):\n                XX_new[:, i::2, i::2] = XX"),
